@@ -1,0 +1,15 @@
+//go:build verif
+
+package runtime
+
+// VerifSetPeepholeOptimizations switches the compiler's peephole pass of a VM environment.
+// It returns false if env is not a VM environment.
+// Verification hook: only compiled with the `verif` build tag.
+func VerifSetPeepholeOptimizations(env Environment, enabled bool) bool {
+	vmEnv, ok := env.(*vmEnvironment)
+	if !ok {
+		return false
+	}
+	vmEnv.compilerConfig.PeepholeOptimizationsEnabled = enabled
+	return true
+}
